@@ -55,6 +55,9 @@ var template = []string{
 	"1 EVEN {even-value}",
 	"2 TYPE {even-type}",
 	"2 DATE {even-date}",
+	"1 CENS", // an event without a date: no age can be calculated, the recorded one may be shown
+	"2 AGE {cens-age}",
+	"2 PLAC {cens-plac}",
 	"1 RESI {resi-value}",
 	"2 DATE {resi-date}",
 	"2 PLAC {resi-plac}",
@@ -107,7 +110,7 @@ var defaults = map[string]string{
 	"ptr-indi": "I1", "ptr-fam": "F1", "ptr-sour": "S1", "ptr-nameless": "I4", "given": "Taint", "surname": "Target", "givn": "Taint", "surn": "Target", "npfx": "Dr", "nsfx": "Jr", "spfx": "van",
 	"name-titl": "Sir", "nick": "Tee", "name-type": "birth", "alt-given": "Other", "alt-surname": "Name", "alt-type": "married", "sex": "M", "birt-value": "", "birt-date": "1 Jan 1800",
 	"birt-plac": "Oldtown, England", "plac-form": "City, Country", "lati": "N51", "long": "W1", "sour-page": "12", "birt-note": "a note", "deat-date": "1 Jan 1870", "deat-plac": "Newtown, England",
-	"even-value": "Graduation", "even-type": "school", "even-date": "1820", "resi-value": "", "resi-date": "1830", "resi-plac": "Midtown, England", "occu": "Farrier", "educ": "School", "note": "note",
+	"even-value": "Graduation", "even-type": "school", "even-date": "1820", "resi-value": "", "cens-age": "42y", "cens-plac": "Censustown, England", "resi-date": "1830", "resi-plac": "Midtown, England", "occu": "Farrier", "educ": "School", "note": "note",
 	"uid": "EE13561DDB204985BFFDEEBF82A5226C5B2E", "custom": "custom", "marr-value": "", "marr-date": "1 Jun 1825", "marr-plac": "Church, England", "fam-note": "family note",
 	"sour-titl": "Register", "sour-auth": "Author", "sour-publ": "Publisher", "sour-publ-date": "1900", "sour-repo": "Repo", "sour-caln": "Call", "sour-custom": "Custom",
 }
@@ -500,6 +503,10 @@ func cases(tier string) []kase {
 				k.Lead = lead
 				out = append(out, k)
 			}
+			// in parentheses: a DATE of that shape is a date phrase, kept as written
+			kp := out[i]
+			kp.Lead, kp.Suffix = "(", ")"
+			out = append(out, kp)
 		}
 	}
 	if tier == "thorough" {
